@@ -9,6 +9,7 @@ import (
 	"fmt"
 	"strings"
 
+	"github.com/hedzr/is/term/color"
 	"github.com/hedzr/logg/slog"
 
 	"verifharness/gen"
@@ -24,6 +25,13 @@ var errProbe = errors.New("probe error")
 
 // c11handlers: the log/slog handler last built on a logger of the current tree.
 var c11handlers = map[*slog.Entry]stdslog.Handler{}
+
+var c11noColours bool
+
+// failingW reports an error for everything it is handed.
+type failingW struct{}
+
+func (failingW) Write(p []byte) (int, error) { return 0, errors.New("destination is gone") }
 
 // c11w is the monitored destination every logger of a C11 tree writes to.
 var c11w io.Writer
@@ -119,6 +127,24 @@ func modeAlphabet(full bool) []modeCall {
 				t.Info("a record into a real file")
 				return t.SetWriter(c11w).SetErrorWriter(c11w)
 			}, func(s Format) Format { return s }),
+			set("a record to a destination that fails", func(t *slog.Entry) *slog.Entry {
+				t.SetWriter(failingW{}).SetErrorWriter(failingW{})
+				t.Info("a record whose destination reports an error")
+				t.Error("and an error-class one")
+				return t.SetWriter(c11w).SetErrorWriter(c11w)
+			}, func(s Format) Format { return s }),
+			set("SetLevelColors(no colours at all)", func(t *slog.Entry) *slog.Entry {
+				// the colours of the two probe severities are taken away (and given back by the next such call)
+				c11noColours = !c11noColours
+				if c11noColours {
+					slog.SetLevelColors(slog.InfoLevel, color.NoColor, color.NoColor)
+					slog.SetLevelColors(slog.WarnLevel, color.NoColor, color.NoColor)
+				} else {
+					slog.SetLevelColors(slog.InfoLevel, color.FgCyan, color.NoColor)
+					slog.SetLevelColors(slog.WarnLevel, color.FgYellow, color.NoColor)
+				}
+				return t
+			}, func(s Format) Format { return s }),
 			set("SetLevel SetAttrs SetTimeFormat", func(t *slog.Entry) *slog.Entry {
 				return t.SetLevel(slog.AlwaysLevel).SetAttrs(slog.Int("x", 1)).SetTimeFormat("15:04:05")
 			}, func(s Format) Format { return s }),
@@ -167,6 +193,11 @@ type c11step struct {
 // c11run executes one sequence on a fresh three-logger tree and checks getters and probe shapes of every logger after every call.
 func c11run(c *Ctx, idx int, log *mon.Log, w mon.W, alpha []modeCall, steps []c11step) bool {
 	c11w = w
+	if c11noColours {
+		c11noColours = false
+		slog.SetLevelColors(slog.InfoLevel, color.FgCyan, color.NoColor)
+		slog.SetLevelColors(slog.WarnLevel, color.FgYellow, color.NoColor)
+	}
 	c11handlers = map[*slog.Entry]stdslog.Handler{}
 	root := newRoot("root", FColor, w, slog.AlwaysLevel)
 	a := root.New("a")
